@@ -78,9 +78,28 @@ def run(ctx):
     scen.append(('build:then_reduce', list(refs[-1][1].ops) + ['rs:0:1'], True))
     scen.append(('build:big_vectors', ['sb:0:0:0', 'st:3', 'cv:%s:2000:4:4:1073741823' % ('ab' * 8000), 'to:0:$2', 'sS'] + ['aS:%s' % ('41' * 700)] * 6 +
                  ['eS', 'to:1:$11', 'et', 'eb:$13'], True))
-    jdocs = docs if ctx.thorough else [docs[1], docs[3], docs[5], docs[6]]
+    # stale data stack content: an earlier sibling table with padding (ubyte, then ulong), then frames filled with 0xEE in which
+    # the failures hit; the rebuild after reset places the padded table over those bytes
+    ee = lambda n: 'ee' * n
+    pad = Script()
+    pad.emit('sb:0:0:0'); pad.emit('st:4')
+    pad.emit('st:2'); pad.emit('ta:0:1:1:ee'); pad.emit('ta:1:8:8:' + ee(8)); t1 = pad.emit('et'); pad.emit('to:0:$%d' % t1)
+    pad.emit('sv:1:1:4294967295'); pad.emit('xv:40:' + ee(40)); pad.emit('xv:600:' + ee(600)); v = pad.emit('ev'); pad.emit('to:1:$%d' % v)
+    pad.emit('sS'); pad.emit('aS:' + ee(33)); pad.emit('aS:' + ee(1500)); st_ = pad.emit('eS'); pad.emit('to:2:$%d' % st_)
+    pad.emit('st:3'); pad.emit('ta:0:1:1:ee'); pad.emit('ta:2:8:8:' + ee(8)); pad.emit('ta:1:2:2:eeee'); t2 = pad.emit('et'); pad.emit('to:3:$%d' % t2)
+    r_ = pad.emit('et'); pad.emit('eb:$%d' % r_)
+    scen.append(('build:padded_ee', pad.ops, True))
+    pst = Script()
+    pst.emit('sb:0:0:0'); pst.emit('st:2')
+    pst.emit('sv:1:1:4294967295'); pst.emit('xv:64:' + ee(64)); v = pst.emit('ev'); pst.emit('to:0:$%d' % v)
+    pst.emit('ta:1:24:8:ee' + '00' * 7 + ee(8) + 'eeee' + '00' * 6)      # struct { ubyte; ulong; ushort } written in place
+    r_ = pst.emit('et'); pst.emit('eb:$%d' % r_)
+    scen.append(('build:padded_struct_ee', pst.ops, True))
+    jdocs = docs if ctx.thorough else [docs[1], docs[3], docs[5], docs[6], docs[8], docs[9]]
     for i, d in enumerate(jdocs):
         scen.append(('json:doc%d' % i, ['jp:%s:0' % hx(d.encode())], False))
+    for i in (8, 9):
+        scen.append(('json:as_root_doc%d' % i, ['jr:%s:0' % hx(docs[i].encode())], False))
     many = 400
     scen.append(('json:long_union_vector', ['jp:%s:0' % hx(('{"uv_type":[' + ','.join(['"NONE"'] * many) + '],"uv":[' + ','.join(['null'] * many) + ']}').encode())], False))
     scen.append(('json:long_union_vector_AB', ['jp:%s:0' % hx(('{"uv_type":[' + ','.join(['"A"', '"B"'] * 60) + '],"uv":[' + ','.join(['{"a":1}', '{"b":[1]}'] * 60) + ']}').encode())], False))
@@ -92,14 +111,27 @@ def run(ctx):
     scen.append(('print:dynamic', ['pj:%s:128' % buf_hex], False))
     scen.append(('refmap:grow', ['rm:1', 'sb:0:0:0', 'ri:2000'], False))
 
-    recover = ['rs:0:0']                   # then the reference build
+    def rebuild_of(ops):
+        """what is built after the reset: the scenario itself when it is a complete build (its frames then cover the data stack
+        positions the failed run left dirty), else the fixed reference build"""
+        return Script(ops) if ops and ops[-1].split(':')[0] in ('eb', 'cb') and not any(t.split(':')[0] in ('su', 'rm') for t in ops) else ref
     def line(cfg, arm, ops, disarm):
         s = Script([arm, 'GUARD'] if arm else ['GUARD'])
         s.extend(Script(ops)); s.emit('REC')
         if disarm: s.emit(disarm)
         s.emit('CNT'); s.emit('snap')
-        s.emit('rs:0:0'); s.extend(ref); s.emit('fin'); s.emit('clr'); s.emit('LIVE')
+        s.emit('rs:0:0'); s.extend(rebuild_of(ops)); s.emit('fin'); s.emit('clr'); s.emit('LIVE')
         return 'cfg:%s %s' % (cfg, ' '.join(s.ops)), s.ops
+    # bytes of each rebuild on a freshly initialised builder
+    fresh_of = {}
+    fl = []
+    for name, ops, model in scen:
+        rb = Script(); rb.extend(rebuild_of(ops)); rb.emit('fin')
+        fl.append((name, 'cfg:0:0 ' + ' '.join(rb.ops)))
+    for (name, l), rep in zip(fl, lib.run_harness_resilient(H, [l for _, l in fl])):
+        fresh_of[name] = rep.split()[-1] if rep and not rep.startswith('CRASH') else None
+        if fresh_of[name] in (None, 'FINFAIL', 'COPYFAIL'):
+            ctx.violation('fresh-build-failed:' + name, 'scenario %s does not build on a fresh builder: %s' % (name, rep[:200]), {'harness_line': l})
 
     # ---------------------------------------------------------------- pass 1: count
     base = []
@@ -118,7 +150,7 @@ def run(ctx):
         counts[(name, cfg)] = (int(t[i_cnt]), int(sn['alloc_calls']), int(sn['emit_calls']))
         if t[toks.index('REC')] != 'clean':
             ctx.violation('unarmed-failure:' + name, 'a call of scenario %s fails without injected failure: %s' % (name, ' '.join(t[:40])), {'harness_line': l})
-        if t[-3] != fresh_bytes:
+        if t[-3] != fresh_of.get(name):
             ctx.violation('unarmed-rebuild:' + name, 'rebuild after scenario %s differs from a fresh builder' % name, {'harness_line': l})
         if t[-1] != '0':
             ctx.violation('unarmed-live:' + name, 'blocks live after clear: %s' % t[-1], {'harness_line': l})
@@ -180,9 +212,10 @@ def run(ctx):
                 ctx.violation(key, 'scenario %s: the %s was not reported by any call of the build (all calls returned success)' % (name, tag),
                               {'harness_line': l, 'scenario': name, 'mechanism': mech, 'k': k, 'repeated': rp, 'reply': ' '.join(t[:60])})
         fin = t[-3]
-        if fin != fresh_bytes:
+        fresh_bytes_n = fresh_of.get(name) or ''
+        if fin != fresh_bytes_n:
             key = 'emitter-used-stale' if fin == 'FINFAIL' and mech == 'macro' else 'rebuild-after-failure-differs:' + name.split(':')[0]
-            ctx.violation(key, 'scenario %s, %s: after reset the reference build yields %s, a fresh builder %d bytes' % (name, tag, fin[:40], len(fresh_bytes) // 2),
+            ctx.violation(key, 'scenario %s, %s: after reset the rebuild yields %d bytes (%s...) that differ from the %d bytes of a fresh builder' % (name, tag, len(fin) // 2, fin[:40], len(fresh_bytes_n) // 2),
                           {'harness_line': l, 'scenario': name, 'mechanism': mech, 'k': k, 'repeated': rp})
         if t[-1] != '0':
             ctx.violation('live-after-clear:' + name.split(':')[0], 'scenario %s, %s: %s (live blocks * 1000 + bookkeeping errors) after flatcc_builder_clear' % (name, tag, t[-1]),
